@@ -13,6 +13,10 @@ from selftest.udiff import apply_unified
 def job(args):
     tid, ov, prop = args
     from selftest import campaign
+    from sa import driver as _driver
+
+    # a control is the twin plus one more edit: keep the twin's other files in the variant
+    campaign.analyse_variant = lambda prop_, mov, **kw: _driver.analyse_variant(prop_, {**ov, **mov}, **kw)
     try:
         project = Project(repo_root(), overrides=ov)
         controls, extra = campaign.run_for_check(prop, project, "quick")
